@@ -72,10 +72,11 @@ pub fn gen_any_small(rng: &mut Rng, tier: Tier, small: bool) -> Case {
             Case::Cursor(CursorCase { spec, env: EnvPlan::whole(), steps, fresh_each: false, v1: false })
         }
         2 => {
-            let mut spec = gen::gen_file_spec(rng, Tier::Quick, false);
+            let mut spec = if rng.chance(1, 2) { gen::gen_layered_spec(rng, Tier::Quick) } else { gen::gen_file_spec(rng, Tier::Quick, false) };
             shrink_spec(rng, &mut spec, cap);
             let keys: Vec<Vec<u8>> = spec.entries.materialize().into_iter().map(|(k, _)| k).collect();
-            let queries = crate::props_iter::gen_queries(rng, &keys, if small { 4 } else { 12 }, 2);
+            let qkind = if rng.chance(1, 2) { 1 } else { 2 };
+            let queries = crate::props_iter::gen_queries(rng, &keys, if small { 4 } else { 12 }, qkind);
             Case::Iter(IterCase { spec, env: EnvPlan::whole(), queries, v1: false })
         }
         3 => {
@@ -219,13 +220,19 @@ pub fn check_c11(case: &Case, st: &mut Stats) -> Verdict {
         ("sink.bytes", Res::Bytes(b)) => Some(b.clone()),
         _ => None,
     });
+    // multi-megabyte entries: same schedule kinds, scaled transfer sizes (one call per byte would
+    // cost millions of simulated calls per run)
+    let huge = reference.recs.iter().any(|r| matches!(&r.res, Res::Bytes(b) if b.len() >= (1 << 20)))
+        || reference.files.iter().any(|f| f.len() >= (1 << 20))
+        || reference.recs.len() > 200_000;
+    let scale = if huge { 1usize << 14 } else { 1 };
     let variants: Vec<(&str, EnvPlan)> = vec![
-        ("chop1", EnvPlan { modes: vec![IoMode::Chop { max: 1 }], stream: plan.stream, faults: vec![], crash: None, buffered: !plan.buffered }),
+        ("chop1", EnvPlan { modes: vec![IoMode::Chop { max: scale }], stream: plan.stream, faults: vec![], crash: None, buffered: !plan.buffered }),
         ("as-generated", plan.clone()),
         (
             "chop-intr",
             EnvPlan {
-                modes: vec![IoMode::ChopIntr { max: 1 + (plan.stream % 7) as usize, den: 2 + (plan.stream % 3) as u32 }],
+                modes: vec![IoMode::ChopIntr { max: scale * (1 + (plan.stream % 7) as usize), den: 2 + (plan.stream % 3) as u32 }],
                 stream: mix(plan.stream, 77),
                 faults: vec![],
                 crash: None,
@@ -598,7 +605,8 @@ pub fn gen_tiny(rng: &mut Rng) -> Case {
     } else {
         EnvPlan { modes: vec![IoMode::Chop { max: 64 }], stream: rng.next_u64(), faults: vec![], crash: None, buffered: rng.chance(1, 2) }
     };
-    let codec = *rng.pick(&[0u8, 0, 5, 3, 1]);
+    // codecs are interpreted byte by byte under Miri (64 KiB hash tables per block): mostly None
+    let codec = *rng.pick(&[0u8, 0, 0, 0, 0, 0, 0, 1]);
     let file = |rng: &mut Rng, n: usize| -> FileSpec {
         let levels = *rng.pick(&[0u8, 1, 2, 2]);
         let mut ents = Vec::new();
